@@ -22,6 +22,7 @@ from __future__ import annotations
 
 import collections
 import copy
+import datetime
 import itertools
 import json
 
@@ -40,9 +41,23 @@ CBS = ("absent", "none", "g0", "v9", "all")
 NOVAL = "<none>"
 
 
+_FZC = {}
+_FZU = {}
+
+
 def fz(v):
-    """Canonical, hashable form of a gene value (distinguishes 1, '1', [1], True)."""
-    return json.dumps(v, sort_keys=True, default=repr)
+    """Canonical, hashable form of a gene value (distinguishes 1, '1', [1], True); memoised for hashable values."""
+    try:
+        return _FZC[(type(v), v)]
+    except KeyError:
+        r = _FZC[(type(v), v)] = json.dumps(v, sort_keys=True, default=repr)
+        return r
+    except TypeError:  # unhashable (list) value
+        k = repr(v)
+        r = _FZU.get(k)
+        if r is None:
+            r = _FZU[k] = json.dumps(v, sort_keys=True, default=repr)
+        return r
 
 
 def approves(kind, gene, value):
@@ -69,6 +84,49 @@ class Approver:
         return approves(self.kind, m.gene_name, m.new_value)
 
 
+_ATOMIC = (int, float, str, bool, type(None), Gene, ExpressionLevel, GeneType, datetime.datetime)
+
+_ATOMIC_SET = frozenset(_ATOMIC)
+
+
+def clone_lineage(genomes, cb):
+    """Copy the live lineage. Containers (dict / list) and mutable records are copied ONCE per identity, so any aliasing
+    between genomes (a shared _genes dict, a shared log) survives the copy; frozen Gene objects and scalars are shared;
+    anything the harness does not know is deep-copied with the same memo."""
+    memo = {}
+    deep_memo = {}
+
+    def cp(x):
+        if type(x) in _ATOMIC_SET or isinstance(x, _ATOMIC):
+            return x
+        k = id(x)
+        if k in memo:
+            return memo[k]
+        if type(x) is dict:
+            n = memo[k] = {}
+            for kk, vv in x.items():
+                n[kk] = cp(vv)
+            return n
+        if type(x) is list:
+            n = memo[k] = []
+            n.extend(cp(vv) for vv in x)
+            return n
+        if isinstance(x, Approver):
+            n = memo[k] = Approver(x.kind)
+            n.calls = list(x.calls)
+            return n
+        if isinstance(x, Genome) or type(x).__name__ in ("ExpressionState", "Mutation"):
+            n = memo[k] = object.__new__(type(x))
+            for kk, vv in vars(x).items():
+                n.__dict__[kk] = cp(vv)
+            return n
+        n = memo[k] = copy.deepcopy(x, deep_memo)  # datetimes, unknown fields
+        return n
+
+    out = [cp(g) for g in genomes]
+    return out, (cp(cb) if cb is not None else None)
+
+
 class Ref:
     __slots__ = ("values", "level", "top", "parent")
 
@@ -85,7 +143,8 @@ class State:
     __slots__ = ("root", "genomes", "cb", "refs", "obs", "types", "dflt")
 
 
-PROFILES = {
+PROFILES = {}
+PROFILES.update({
     "wide": dict(
         maxg=3,
         readd=NAMES,
@@ -108,7 +167,8 @@ PROFILES = {
         replicate=[(2, True), (0, False)],
         express=(3,),
     ),
-}
+})
+PROFILES["deep2"] = dict(PROFILES["deep"], maxg=2)
 
 
 def ref_express(st, j, ctx):
@@ -130,7 +190,11 @@ def observe_genome(g):
     ex = g.export()
     stats = g.get_statistics()
     genes = tuple((d["name"], fz(d["value"]), d["gene_type"], d["default_expression"], bool(d["required"])) for d in ex["genes"])
-    direct = tuple((n, fz(g.get_gene(n).value) if g.get_gene(n) is not None else NOVAL) for n in NAMES)
+    direct = []
+    for n in NAMES:
+        x = g.get_gene(n)
+        direct.append((n, fz(x.value) if x is not None else NOVAL))
+    direct = tuple(direct)
     levels = tuple((n, ex["expression"].get(n, {}).get("level")) for n in NAMES)
     expr = tuple(tuple(sorted((k, fz(v)) for k, v in g.express({n: True for n in c}).items())) for c in CTXS)
     return (genes, direct, g.get_hash(), levels, (stats["mutations_count"], stats["approved_mutations"]), expr)
@@ -188,7 +252,7 @@ class Model:
     def clone(self, st):
         c = State()
         c.root, c.types, c.dflt = st.root, st.types, st.dflt
-        c.genomes, c.cb = copy.deepcopy((st.genomes, st.cb))  # one memo: aliasing inside the lineage is preserved
+        c.genomes, c.cb = clone_lineage(st.genomes, st.cb)  # one memo: aliasing inside the lineage is preserved
         c.refs = [r.copy() for r in st.refs]
         c.obs = list(st.obs)
         return c
@@ -567,21 +631,25 @@ REP_SETS = [
 CONFIGS = [(False, c) for c in CBS] + [(True, "absent"), (True, "none")]
 
 
-def make_roots(sets, configs=CONFIGS):
-    return [{"types": list(t), "dflt": list(d), "allow": a, "cb": c} for (t, d) in sets for (a, c) in configs]
+def make_roots(profile, sets, configs=CONFIGS):
+    return [{"profile": profile, "types": list(t), "dflt": list(d), "allow": a, "cb": c} for (t, d) in sets for (a, c) in configs]
 
 
 def plan(tier):
     """[(profile, roots, depth)]"""
+    import os
+    dd = [int(x) for x in os.environ.get("C20_DEPTHS", "0,0,0,0").split(",")]
     if tier == "quick":
-        return [("deep", make_roots(REP_SETS[:2]), 5), ("wide", make_roots(REP_SETS), 2)]
+        return [("deep2", make_roots("deep2", REP_SETS[:2]), dd[0] or 5), ("deep", make_roots("deep", REP_SETS[:2]), dd[1] or 4),
+                ("wide", make_roots("wide", REP_SETS), dd[2] or 2)]
     all_types = [(t, REP_SETS[k % len(REP_SETS)][1]) for k, t in enumerate(itertools.product(GTYPES, repeat=3))]
-    return [("deep", make_roots(REP_SETS[:2]), 8), ("wide", make_roots(REP_SETS), 3), ("wide", make_roots(all_types), 2)]
+    return [("deep2", make_roots("deep2", REP_SETS[:2]), dd[0] or 8), ("deep", make_roots("deep", REP_SETS[:2]), dd[1] or 5),
+            ("wide", make_roots("wide", REP_SETS), dd[2] or 3), ("wide", make_roots("wide", all_types), dd[3] or 2)]
 
 
 def self_check(ctx):
     """snapshot/clone must be observationally equal to history replay on fresh objects (design §2.1)."""
-    m = Model(ctx.tier, "wide", make_roots(REP_SETS[:1], [(True, "absent"), (False, "g0")]))
+    m = Model(ctx.tier, "wide", make_roots("wide", REP_SETS[:1], [(True, "absent"), (False, "g0")]))
     hist = [("mutate", 0, "g0", 9), ("replicate", 0, 2, True), ("silence", 1, "g1"), ("mutate", 1, "g0", "z"),
             ("rollback", 1, "g0"), ("replicate", 1, 1, False), ("readd", 0, "g2"), ("setexpr", 2, "g0", "HIGH")]
     known = {"allow_mutations", "mutation_rate", "on_mutation", "silent", "_genes", "_expression", "_mutations", "_created_at",
@@ -669,5 +737,4 @@ def replay(ctx, case):
     if case.get("space") == "sweep":
         return sweep_case(case)[0]
     root = case["root"]
-    profile = "wide"
-    return explore.replay_case(Model(ctx.tier, profile, [root]), case)
+    return explore.replay_case(Model(ctx.tier, root["profile"], [root]), case)
